@@ -36,6 +36,9 @@ downsize = Fn(F, [IMPL, "send", "downsize"], ret="r",
     ],
     safety_props=["C18", "C13"])
 
+chan_fd = Fn(F, ["impl OsIpcChannel", "fd"], ret="r",
+    ensures=[Clause("unix.OsIpcChannel.fd/ensures.spec", "r == self.spec_fd()", ["C04"])], safety_props=["C18"])
+
 INV_COMMON = [
     Clause("unix.send/loop2.invariant.sys", "48 <= sys_sendbuf() <= isize::MAX && data@.len() <= isize::MAX"),
     Clause("unix.send/loop2.invariant.sendbuf_range", "(1000 <= sendbuf_size || sendbuf_size == sys_sendbuf()) && sendbuf_size <= sys_sendbuf()", ["C13", "C18"]),
@@ -136,8 +139,8 @@ send = Fn(F, [IMPL, "send"], ret="r", extra_params="Tracked(k): Tracked<&mut K>"
 
 UNIT = Unit(
     name="u2_send",
-    prelude=["units/common.rs", "units/u2_send.rs"],
-    groups=[(IMPL, [fragment_size, first_fragment_size, get_max_fragment_size, send])],
+    prelude=["units/common.rs", "units/unix_types.rs", "units/u2_send.rs"],
+    groups=[("impl OsIpcChannel", [chan_fd]), (IMPL, [fragment_size, first_fragment_size, get_max_fragment_size, send])],
     props=["C01", "C02", "C04", "C09", "C13", "C15", "C18"],
     prelude_clauses={
         "unix.send_first_fragment/requires.fds_le_max": ["C15", "C18"],
